@@ -97,7 +97,7 @@ fn check_cycles(o: &mut CaseOut, cycles: &[Vec<usize>], m: &Model) {
     }
 }
 
-fn check_bfs_pred<D: Order + OutNeighbors>(d: &D, m: &Model, src: &[usize], r: &mut Rng, o: &mut CaseOut) -> bool {
+fn check_bfs_pred<D: Order + OutNeighbors + Clone>(d: &D, m: &Model, src: &[usize], r: &mut Rng, o: &mut CaseOut) -> bool {
     let n = m.n();
     let dist: BTreeMap<usize, i64> = m.levels(src).into_iter().map(|(k, v)| (k, v as i64)).collect();
     let mut unit = m.clone();
@@ -108,6 +108,8 @@ fn check_bfs_pred<D: Order + OutNeighbors>(d: &D, m: &Model, src: &[usize], r: &
     check_tree(o, "BfsPred::predecessors", &tree.pred, &unit, src, &dist);
     // item sequence: (pred, v)
     let items: Vec<(Option<usize>, usize)> = BfsPred::new(d, src.iter().copied()).take(4 * n + 4).collect();
+    let items2: Vec<(Option<usize>, usize)> = BfsPred::new(d, src.iter().copied()).clone().take(4 * n + 4).collect();
+    o.eq("BfsPred:clone-of-a-fresh-iterator", &items2, &items);
     let vs: Vec<usize> = items.iter().map(|x| x.1).collect();
     let lv = m.levels(src);
     c04::check_level_seq(o, "BfsPred", &vs, &lv);
@@ -148,6 +150,8 @@ pub fn case(idx: u64, seed: u64, p: &Params, o: &mut CaseOut) {
         let tree = DijkstraPred::new(&d, src.iter().copied()).predecessors();
         check_tree(o, "DijkstraPred::predecessors", &tree.pred, &m, &src, &dist);
         let items: Vec<(Option<usize>, usize)> = DijkstraPred::new(&d, src.iter().copied()).take(4 * n + 4).collect();
+        let items2: Vec<(Option<usize>, usize)> = DijkstraPred::new(&d, src.iter().copied()).clone().take(4 * n + 4).collect();
+        o.eq("DijkstraPred:clone-of-a-fresh-iterator", &items2, &items);
         let vs: Vec<usize> = items.iter().map(|x| x.1).collect();
         let set: BTreeSet<usize> = vs.iter().copied().collect();
         o.check(set.len() == vs.len(), "DijkstraPred:vertex-yielded-twice", || format!("{vs:?}"));
